@@ -220,6 +220,8 @@ class U:
             return SymTensor(v.shape, v.dtype, s, name=v.name)
         if isinstance(v, (list, tuple)):
             return type(v)(self.snapshot(x) for x in v)
+        if isinstance(v, dict):
+            return {k: self.snapshot(x) for k, x in v.items()}
         return v
 
     def run(self, relpath, qual, *args, selfobj=None, record=True, asserts="prove", **kwargs):
